@@ -26,7 +26,7 @@ ASSUMPTIONS = [
     "an unchanged %rewrite unit is absent from the diff by design: the projection law is evaluated modulo such units",
     "order is compared inside %ordered groups only (call_diff_logic concatenates groups)",
 ]
-FLOORS = {"quick": {"diffs_compared": 3000, "moved_entries": 200, "rewrite_units_changed": 50, "text_views_checked": 3000, "self_diffs": 1000, "ignore_case_rulebooks": 400, "acl_diffs_compared": 600, "removals_of_not_deletable_rows": 100, "big_blocks_compared": 120, "diff_worker_runs": 600},
+FLOORS = {"quick": {"diffs_compared": 3000, "moved_entries": 200, "rewrite_units_changed": 50, "text_views_checked": 3000, "self_diffs": 1000, "ignore_case_rulebooks": 400, "acl_diffs_compared": 600, "removals_of_not_deletable_rows": 100, "big_blocks_compared": 120, "diff_worker_runs": 600, "collapsed_device_groups_checked": 1500, "file_diff_texts_checked": 600},
           "thorough": {"diffs_compared": 150000, "moved_entries": 10000, "rewrite_units_changed": 2500, "text_views_checked": 150000, "self_diffs": 50000, "ignore_case_rulebooks": 15000, "acl_diffs_compared": 25000, "removals_of_not_deletable_rows": 4000, "big_blocks_compared": 5000}}
 VENDORS = ["huawei", "h3c", "optixtrans", "cisco", "nexus", "iosxr", "arista", "b4com", "pc", "juniper", "ribbon", "nokia"]
 BRACE = {"juniper", "ribbon", "nokia"}
@@ -299,6 +299,22 @@ def check_case(seed, acc, icase=False):
             acc.violation("C03/pre-diff-text", "the `annet diff` text read back does not give the diff entries (per level, as a multiset)",
                           dict(w, text=pre_text.split("\n")[:40], read_back=RD.canon(back2)))
         acc.count("text_views_checked")
+        # devices are shown together (`= sw1, sw2`) only when their diffs are the same: same entries at the same depth
+        blk = next((i for i, e in enumerate(ds) if e[2]), None)
+        if blk is not None:
+            from annet.diff import collapse_diffs
+            from vf import harness_gen as H
+            e = ds[blk]
+            flatter = list(ds[:blk]) + [(e[0], e[1], [], e[3])] + list(e[2]) + list(ds[blk + 1:])  # the same signed lines in the same order, one block opened up
+            d1, d2, d3 = H.FakeDevice(hw), H.FakeDevice(hw), H.FakeDevice(hw)
+            d1.hostname, d2.hostname, d3.hostname = "sw1", "sw2", "sw3"
+            d1.fqdn, d2.fqdn, d3.fqdn = "sw1.x", "sw2.x", "sw3.x"
+            groups = collapse_diffs({d1: ds, d2: flatter, d3: ds})
+            acc.count("collapsed_device_groups_checked")
+            by = {tuple(sorted(x.hostname for x in k)) for k in groups}
+            if by != {("sw1", "sw3"), ("sw2",)}:
+                acc.violation("C03/devices-with-different-diffs-shown-together", "devices are grouped under one diff although their diffs differ in nesting (or equal diffs are not grouped)",
+                              dict(w, groups=sorted(map(list, by))))
     except Exception as e:
         acc.violation("C03/text-exception/%s" % type(e).__name__, "rendering the diff raised", dict(w, error=repr(e)[:300]))
     return w
@@ -381,6 +397,21 @@ def check_worker_case(seed, acc):
         gens = [H.make_partial("GenAll", vname, "~ %global", H.tree_runner(pn))]
         got = H.run_diff_worker(dev, gens, fmt.join(old), no_acl_exclusive=True)
         exp = strip_unchanged(make_diff(old, negfirst(new), rb, []))
+        # `annet file-diff` on the two configurations saved to files: its text holds exactly the entries of the diff, one line each
+        import os, tempfile, types, shutil
+        from annet import api
+        from vf.props import c16
+        td = tempfile.mkdtemp(prefix="vf_c03_")
+        try:
+            op_, np_ = os.path.join(td, "old.cfg"), os.path.join(td, "new.cfg")
+            open(op_, "w").write(fmt.join(old))
+            open(np_, "w").write(fmt.join(new))
+            fargs = types.SimpleNamespace(hw=hw, add_comments=False, indent="  ", show_rules=False, no_color=True, old=op_, new=np_)
+            fd = list(api.file_diff_worker((op_, np_), fargs))
+        finally:
+            shutil.rmtree(td, ignore_errors=True)
+        ftext = fd[0][1] if fd else ""
+        fown = c16.own_diff_lines(strip_unchanged(make_diff(old, new, rb, [])))
     except Exception as e:
         acc.violation("C03/worker-exception/%s" % type(e).__name__, "the diff worker raised on an in-domain input", dict(w, error=repr(e)[:300]))
         return
@@ -398,6 +429,11 @@ def check_worker_case(seed, acc):
         for op, row, ch in entries:
             out.setdefault(row.split()[1] if row.startswith(prefix + " ") and len(row.split()) > 1 else row.split()[0], []).append((op, row, fam(ch)))
         return out
+    acc.count("file_diff_texts_checked")
+    if sorted(x.rstrip() for x in ftext.split("\n") if x.strip()) != sorted(fown):
+        acc.violation("C03/file-diff-text-lacks-entries", "the text `annet file-diff` prints does not hold exactly the entries (added, removed, affected, moved rows) of the diff of the two files",
+                      dict(w, printed=ftext.split("\n")[:40], entries=fown[:40]))
+        return
     if fam(g_) != fam(e_):
         acc.violation("C03/diff-worker-differs-from-make_diff", "the `annet diff` worker reports other entries than make_diff gives for the device's and the generated configuration",
                       dict(w, worker=RD.canon(g_), expected=RD.canon(e_)))
